@@ -476,18 +476,22 @@ theorem le_clearWrittenEvents (a : Acc) : Le a (clearWrittenEvents a) := by
     (.of_st ⟨rfl, .clearWritten a1.1.db .refl, fun _ h => h, fun h => h⟩) ?_
   exact le_foldl (fun a id => emitCb a (.eventCleared id)) id (fun b x => le_emitCb _ _) _ _
 
-theorem writeErrorResponse_none {a : Acc} {dst : Nat} {seq : Option Nat} (h : writeErrorResponse a dst seq = none) :
+theorem writeErrorResponse_none {a : Acc} {dst : Nat} {bc : Bool} {seq : Option Nat} (h : writeErrorResponse a dst bc seq = none) :
     a.1.db.unwrittenClasses = none := by
   unfold writeErrorResponse at h
+  split at h
+  · simp at h
   split at h
   · simp at h
   · split at h
     · exact writeSolicited_none ‹_›
     · simp at h
 
-theorem le_writeErrorResponse {a b : Acc} {dst : Nat} {seq : Option Nat} (h : writeErrorResponse a dst seq = some b) :
+theorem le_writeErrorResponse {a b : Acc} {dst : Nat} {bc : Bool} {seq : Option Nat} (h : writeErrorResponse a dst bc seq = some b) :
     Le a b := by
   unfold writeErrorResponse at h
+  split at h
+  · simp only [Option.some.injEq] at h; subst h; exact .refl _
   split at h
   · simp only [Option.some.injEq] at h; subst h; exact .refl _
   · split at h
@@ -497,7 +501,7 @@ theorem le_writeErrorResponse {a b : Acc} {dst : Nat} {seq : Option Nat} (h : wr
 def PopSpec (s : OState) (r : OState × Popped) : Prop :=
   match r with
   | (t, .nothing) => LeS s t ∧ t.pending = none ∧ (s.pending = none → t = s)
-  | (t, .error _ _) => t = s
+  | (t, .error _ _ _) => t = s
   | (t, .request f ctrl func objects raw) =>
     t = s ∧ s.pending = some f ∧ parseRequest f.data = .request ctrl func objects raw
 
@@ -507,16 +511,14 @@ theorem popRequest_spec (s : OState) : PopSpec s (popRequest s) := by
   | none => exact ⟨.refl _, hp, fun _ => rfl⟩
   | some f =>
     dsimp only
+    split
+    · refine ⟨⟨rfl, .refl, fun _ h => ?_, fun h => h⟩, rfl, fun h => ?_⟩
+      · cases h
+      · rw [hp] at h; cases h
     cases hq : parseRequest f.data with
     | insufficient => exact rfl
     | headerError seq => exact rfl
-    | request ctrl func objects raw =>
-      dsimp only
-      split
-      · refine ⟨⟨rfl, .refl, fun _ h => ?_, fun h => h⟩, rfl, fun h => ?_⟩
-        · cases h
-        · rw [hp] at h; cases h
-      · exact ⟨rfl, hp, hq⟩
+    | request ctrl func objects raw => exact ⟨rfl, hp, hq⟩
 
 theorem le_enterSolWait (a : Acc) (series : Series) (cont : SolCont) : Le a (enterSolWait a series cont) := by
   unfold enterSolWait
@@ -568,15 +570,19 @@ theorem OSpec.some {β : Type} {a b : Acc} {x : β} {C : Prop} {res : Option (Ac
     (hn : res = some (b, x)) : Le a b := by
   subst hn; exact h
 
-theorem hrfi_post (a0 : Acc) (C : Prop) (f : Frag) (result : Option (Acc × Option LastReq)) (h : OSpec a0 C result) :
+theorem hrfi_post (a0 : Acc) (C : Prop) (f : Frag) (result : Option (Acc × Option (LastReq × Bool))) (h : OSpec a0 C result) :
     OSpec a0 (C ∨ CounterUnderflow a0.1.db)
       (match (generalizing := false) result with
         | none => none
         | some (a, none) => some (a, none)
-        | some (a, some lr) =>
+        | some (a, some (lr, echo)) =>
           match lr.response with
           | none => some (({ a.1 with lastReq := some lr }, a.2), lr.series)
           | some r =>
+            if echo then
+              let a := repeatSolicited a f.src r
+              some (({ a.1 with lastReq := some lr }, a.2), lr.series)
+            else
             match writeSolicited a f.src r with
             | none => none
             | some (a, r) =>
@@ -586,12 +592,14 @@ theorem hrfi_post (a0 : Acc) (C : Prop) (f : Frag) (result : Option (Acc × Opti
   match result, h with
   | none, h => exact Or.inl h
   | some (a, none), h => exact h
-  | some (a, some lr), h =>
+  | some (a, some (lr, echo)), h =>
     dsimp only
     cases hr : lr.response with
     | none => exact Le.trans h (.of_st (.of_eq rfl rfl rfl rfl))
     | some r =>
       dsimp only
+      split
+      · exact Le.trans h ((le_repeatSolicited a f.src r).trans (.of_st (.of_eq rfl rfl rfl rfl)))
       cases hw : writeSolicited a f.src r with
       | none => exact Or.inr (CounterUnderflow.of_le h (writeSolicited_none hw))
       | some p =>
@@ -620,7 +628,9 @@ theorem handleRequestFromIdle_spec (a : Acc) (f : Frag) (ctrl : AppCtrl) (func :
   | repeatNonRead last =>
     dsimp only
     split
-    · exact .of_st (.of_eq rfl rfl rfl rfl)
+    · split
+      · exact .of_st (.of_eq rfl rfl rfl rfl)
+      · exact .refl _
     · exact .refl _
   | broadcast mode =>
     dsimp only
@@ -745,9 +755,9 @@ def pass (k : Acc → StepRes) (a : Acc) : StepRes :=
   let a : Acc := (s, a.2)
   match p with
   | .nothing => afterRequest k ({ a.1 with pending := none }, a.2)
-  | .error src seq =>
+  | .error src bc seq =>
     let a : Acc := (onLinkActivity { a.1 with pending := none }, a.2)
-    match writeErrorResponse a src seq with
+    match writeErrorResponse a src bc seq with
     | none => die a
     | some a => afterRequest k a
   | .request f ctrl func objects raw =>
@@ -847,12 +857,12 @@ theorem good_pass {k : Acc → StepRes} (hk : ∀ b, Inv cfg0 db0 D A b → Good
   cases p with
   | nothing =>
     exact good_afterRequest hk (h1.le ((Le.of_st hp.1).trans (.of_st (les_dropPending _))))
-  | error src seq =>
+  | error src bc seq =>
     cases hp
     dsimp only
     have h2 : Inv cfg0 db0 D A (onLinkActivity { a1.1 with pending := none }, a1.2) :=
       h1.le (.of_st (LeS.trans (les_dropPending _) (les_onLinkActivity _)))
-    cases hw : writeErrorResponse (onLinkActivity { a1.1 with pending := none }, a1.2) src seq with
+    cases hw : writeErrorResponse (onLinkActivity { a1.1 with pending := none }, a1.2) src bc seq with
     | none => exact good_die (h2.under ⟨_, .refl, writeErrorResponse_none hw⟩)
     | some b => exact good_afterRequest hk (h2.le (le_writeErrorResponse hw))
   | request f ctrl func objects raw =>
@@ -1043,7 +1053,7 @@ theorem good_unsolWaitOnFragment {a : Acc} (h : Inv cfg0 db0 D A a) (resp : Resp
     have h0 : Inv cfg0 db0 D A (s, a.2) := h.le (.of_st hp.1)
     show Inv _ _ _ _ _
     inv_of h0
-  | error src seq =>
+  | error src bc seq =>
     cases hp
     have h1 : Inv cfg0 db0 D A a1 := by inv_of h
     dsimp -zeta only
@@ -1078,7 +1088,8 @@ theorem good_unsolWaitOnFragment {a : Acc} (h : Inv cfg0 db0 D A a) (resp : Resp
         rw [hb] at hn; cases hn
       · rename_i b' hb'
         rw [hb] at hb'; cases hb'
-        exact h2d.le hle
+        show Inv _ _ _ _ _
+        inv_of (h2d.le hle)
     | malformed e =>
       dsimp -zeta only
       split
@@ -1627,7 +1638,7 @@ theorem pass_congr {k₁ k₂ : Acc → StepRes} (hk : ∀ b, Quiet b → k₁ b
   have hcfg : s.cfg = a0.1.cfg := by
     cases p with
     | nothing => exact hp.1.cfg
-    | error _ _ => cases hp; rfl
+    | error _ _ _ => cases hp; rfl
     | request f ctrl func objects raw => cases hp.1; rfl
   have hka' : s.cfg.keepalive ≠ some 0 := hcfg ▸ hka0
   dsimp -zeta only
@@ -1637,12 +1648,12 @@ theorem pass_congr {k₁ k₂ : Acc → StepRes} (hk : ∀ b, Quiet b → k₁ b
     refine afterRequest_congr hk ?_ ?_
     · rfl
     · exact hka'
-  | error src seq =>
+  | error src bc seq =>
     dsimp only
     generalize ha1 : ((onLinkActivity { s with pending := none }, a0.2) : Acc) = a1
     have h1 : a1.1.pending = none := by rw [← ha1]; rfl
     have h1c : a1.1.cfg.keepalive ≠ some 0 := by rw [← ha1]; exact hka'
-    cases hw : writeErrorResponse a1 src seq with
+    cases hw : writeErrorResponse a1 src bc seq with
     | none => rfl
     | some b =>
       have hle := le_writeErrorResponse hw
